@@ -515,13 +515,9 @@ class World(object):
             hist = self.hist_so_far[:]
 
             def run():
-                twin_world = World(self.init, self.voc_seed, self.salt)
-                for b in hist:
-                    try:
-                        twin_world.prepare(b)()
-                    except Exception:
-                        pass
-                return exports.run_exports(doc, twin_world.h[a["h"]], a["seq"])
+                # the twin (same calls, same export sequence) is built in a pristine process
+                cold = exports.cold_exports(self.init, self.voc_seed, self.salt, hist, a["h"], a["seq"])
+                return exports.run_exports(doc, cold, a["seq"])
             return run
         if op == "IO":
             import iokinds
@@ -732,6 +728,9 @@ class World(object):
 
 def run_behaviour(tid, init, hist, frm, seed=0):
     """Replay `hist`; record observed steps for calls frm..len(hist)."""
+    if any(a["op"] == "Export" for a in hist):
+        import exports
+        exports.ensure_zygote()       # before this process runs anything of this behaviour
     w = World(init, seed, tid)
     steps = []
     for i, a in enumerate(hist, start=1):
